@@ -28,7 +28,23 @@ def c17_nontrivial(line):
     return len(f[3]) > 1
 
 
+def c15_nontrivial(line):
+    f = line.split(" ; ")[0].split()
+    return f[0] == "C15C" or len(f[1]) > 3      # at least two characters
+
 PROPS = {
+    "C15": dict(
+        rule="grpc-timeout strings sent through the real gRPC entry (every string of length <=3 over {0,1,9,+,-,space,H,S,m,x}; "
+             "1..9 digits x 6 units + bad units with leading zeros / all nines / powers of ten; random strings); the handler's "
+             "ctx.Deadline() bracketed by clock readings is judged by the extracted grammar decision procedure; plus 12 "
+             "cancel/disconnect scenarios on a loopback server (observed only). non-trivial = string of >= 2 characters or a cancel scenario",
+        nontrivial=c15_nontrivial,
+        partial="cancellation: net/http's context cancellation and unblocking of body reads is observed on loopback, not proved",
+        assumptions=["context.WithTimeout sets deadline = now + d (oracle)",
+                     "a legal timeout below 100 ms may expire before the handler runs; then the client must get grpc-status 4",
+                     "net/http does not watch an HTTP/1 connection with an unread request body; that scenario is not claimed"],
+        trusted=["strconv.ParseUint base 10 is modelled (digits only) in Model/Timeout.v"],
+    ),
     "C17": dict(
         rule="cases: single ReadNext calls (codec, limit, carry-over, data, read schedule, EOF style) and whole "
              "read loops over WriteNext output, truncations, malformed streams; all 2^(n-1) read partitions of short "
